@@ -46,6 +46,14 @@ def gen(seed, tier):
         out.append(f"broadcast {arr(s1)} {arr(s2)}")
         out.append(f"broadcast_to {arr(s1)} {lst(s2)}")
         out.append(f"zip {arr(s1)} {arr(s2)}")
+    # long axes (a blocked copy must not lose a tail) stretched against unit axes
+    for s1, s2 in [([17], [1]), ([1], [33]), ([17, 1], [1, 9]), ([1, 33], [3, 1]), ([33], [2, 33]), ([2, 1, 17], [3, 1]),
+                   ([64], [64]), ([9, 8], [8]), ([9, 8], [9, 1]), ([100], [1, 1]), ([17], [16]), ([2, 17], [17, 2])]:
+        for x, y in ((s1, s2), (s2, s1)):
+            out.append(f"broadcast {arr(x)} {arr(y, base=1000)}")
+            out.append(f"zip {arr(x)} {arr(y, base=1000)}")
+            out.append(f"broadcast_to {arr(x)} {lst(y)}")
+        out.append(f"broadcast_arrays L3 {arr(s1)} {arr(s2, base=1000)} {arr([1], base=5000)}")
     n = 1000 if tier == "quick" else 20000
     for _ in range(n):
         s1 = rand_shape(rng, 4)
